@@ -401,3 +401,445 @@ Proof.
   vm_compute in E. injection E as <-. unfold sub, live, answered. vm_compute.
   repeat split; auto; try discriminate; try (intros H; repeat (destruct H as [H|H]; try discriminate H); auto).
 Qed.
+
+(* ================================================================== C15: the keep-alive loop returns *)
+(* a caller slot that was never used has the attributes of [no_caller] *)
+Lemma none_kind s : reachable fixed s -> forall d, c_pc (callers s d) = PNone -> c_kind (callers s d) = KSend.
+Proof.
+  revert s. reach_ind.
+  - reflexivity.
+  - intros s e s' _ IH H d. destruct e; step_inv H; sproj; upd_cases; sproj; intros P;
+      try discriminate P; try (apply IH; congruence); auto.
+Qed.
+
+(* the call the loop is inside is one it issued itself *)
+Lemma ka_call_inv s : reachable fixed s ->
+  (forall c, ka s = KInPing c -> c_kind (callers s c) = KPing /\ live s c) /\
+  (forall c, ka s = KInClose c -> c_kind (callers s c) = KKaClose /\ live s c).
+Proof.
+  revert s. reach_ind.
+  - cbn. split; discriminate.
+  - intros s e s' R [I1 I2] H. unfold live in *.
+    split; intros c0; destruct e; step_inv H; sproj; upd_cases; sproj; unfold ka_after;
+      try (intros P; try discriminate P; try (injection P as <-);
+           try (destruct (I1 _ P)); try (destruct (I2 _ P)); split; auto; congruence; fail).
+    all: destruct k; intros P; try discriminate P; try (split; [reflexivity | discriminate]);
+         try (injection P as ->; congruence);
+         try (destruct (I1 _ P) as (? & X); congruence); try (destruct (I2 _ P) as (? & X); congruence);
+         try (apply (I1 _ P)); try (apply (I2 _ P)).
+Qed.
+
+Lemma own_step_ka s e s' c : step fixed s e = Some s' -> own_event c e -> ka s' = ka s.
+Proof. intros H Oe. destruct e; cbn in Oe; try contradiction; step_inv H; sproj; reflexivity. Qed.
+
+Lemma own_run_ka c t : forall s s', run fixed s t = Some s' -> Forall (own_event c) t -> ka s' = ka s.
+Proof.
+  induction t as [|e t IH]; intros s s' H F; cbn [run] in H; [now injection H as <-|].
+  destruct (step fixed s e) as [s1|] eqn:E; [|discriminate]. inversion F; subst.
+  rewrite (IH _ _ H); [eapply own_step_ka; eauto | assumption].
+Qed.
+
+(* caller and goroutine identifiers not in use: the loop's next call can be issued *)
+Lemma in_le_max l x : In x l -> (x <= list_max l)%nat.
+Proof.
+  intros H. pose proof (proj1 (list_max_le l (list_max l)) (le_n _)) as F.
+  rewrite Forall_forall in F. now apply F.
+Qed.
+
+Lemma fresh_caller s : reachable fixed s -> exists c, c_pc (callers s c) = PNone.
+Proof.
+  intros R. exists (S (list_max (started s))).
+  destruct (c_pc (callers s (S (list_max (started s))))) eqn:P; [reflexivity|..];
+    (assert (L : live s (S (list_max (started s)))) by (unfold live; congruence);
+     apply (proj2 (started_live fixed s R)) in L; apply in_le_max in L; lia).
+Qed.
+
+Lemma fresh_gor s : exists g, gor_free s g = true.
+Proof.
+  exists (S (list_max (map (fun c => c_gor (callers s c)) (started s)))). unfold gor_free.
+  apply forallb_forall. intros c Hc. apply orb_true_iff. left. apply negb_true_iff. apply Nat.eqb_neq.
+  assert (In (c_gor (callers s c)) (map (fun c => c_gor (callers s c)) (started s))) by (apply in_map_iff; eauto).
+  apply in_le_max in H. lia.
+Qed.
+
+(* The loop issues a call: in the model a [Start] event (the loop's goroutine
+   calling Submit / Close is an event like every other call being issued). *)
+Lemma ka_start s k q f : reachable fixed s -> ka_allows s k = true -> (k = KPing \/ k = KKaClose) ->
+  exists c g s1, step fixed s (Start c k g q f) = Some s1 /\ ka s1 = ka_after k c (ka s) /\ done s1 = done s.
+Proof.
+  intros R A Hk. destruct (fresh_caller s R) as (c & P). destruct (fresh_gor s) as (g & G).
+  exists c, g. unfold step. rewrite P, G, A. eexists. split; [reflexivity|]. sproj. split; reflexivity.
+Qed.
+
+(* the steps of the keep-alive loop: its own ([KaNext]: it looks at what its call
+   returned; [KaSeeDone]: its select takes the Done() case), the issue of its
+   own calls, and the steps of those calls — among them [WriteReturn]: the
+   transport lets the call's Write return, the only thing needed from outside.
+   The calls are identified by their kind in the final state (attributes of an
+   issued call never change). *)
+Definition ka_event (s' : state) (e : event) : Prop :=
+  match e with
+  | KaNext | KaSeeDone => True
+  | Start _ k _ _ _ => k = KPing \/ k = KKaClose
+  | Register d | WireWrite d | SendFail d | WriteReturn d | WakeDone d | Unregister d | CloseFinish d =>
+    visible s' d = false
+  | _ => False
+  end.
+(* ... and the expiry of the context of such a call (Close: one second; enquire_link: its timeout) *)
+Definition ka_event_t (s' : state) (e : event) : Prop :=
+  ka_event s' e \/ match e with CancelCtx d | WakeCtx d => visible s' d = false | _ => False end.
+
+Lemma visible_mono s1 t s2 d : reachable fixed s1 -> run fixed s1 t = Some s2 -> visible s1 d = false -> visible s2 d = false.
+Proof.
+  intros R H V. unfold visible in *.
+  destruct (c_pc (callers s1 d)) eqn:P.
+  1:{ rewrite (none_kind s1 R d P) in V. discriminate. }
+  all: (assert (L : live s1 d) by (unfold live; congruence); destruct (run_attrs _ _ _ _ d H L) as (-> & _); exact V).
+Qed.
+
+Lemma ka_event_mono s1 t s2 e : reachable fixed s1 -> run fixed s1 t = Some s2 -> ka_event s1 e -> ka_event s2 e.
+Proof. intros R H. destruct e; cbn; auto; eapply visible_mono; eauto. Qed.
+Lemma ka_event_t_mono s1 t s2 e : reachable fixed s1 -> run fixed s1 t = Some s2 -> ka_event_t s1 e -> ka_event_t s2 e.
+Proof.
+  intros R H [K|K]; [left; eapply ka_event_mono; eauto|]. right. destruct e; auto; eapply visible_mono; eauto.
+Qed.
+
+Lemma own_ka_event s c e : visible s c = false -> own_event c e -> ka_event s e.
+Proof. intros V Oe. destruct e; cbn in *; try contradiction; subst; auto. Qed.
+
+Lemma ka_chain s t1 s1 t2 s2 :
+  reachable fixed s -> run fixed s t1 = Some s1 -> Forall (ka_event s1) t1 ->
+  run fixed s1 t2 = Some s2 -> Forall (ka_event s2) t2 ->
+  run fixed s (t1 ++ t2) = Some s2 /\ Forall (ka_event s2) (t1 ++ t2).
+Proof.
+  intros R H1 F1 H2 F2. split; [eapply run_cat; eauto|]. apply Forall_app. split; [|exact F2].
+  eapply Forall_impl; [|exact F1]. intros e. eapply ka_event_mono; eauto using reachable_run.
+Qed.
+Lemma ka_chain_t s t1 s1 t2 s2 :
+  reachable fixed s -> run fixed s t1 = Some s1 -> Forall (ka_event_t s1) t1 ->
+  run fixed s1 t2 = Some s2 -> Forall (ka_event_t s2) t2 ->
+  run fixed s (t1 ++ t2) = Some s2 /\ Forall (ka_event_t s2) (t1 ++ t2).
+Proof.
+  intros R H1 F1 H2 F2. split; [eapply run_cat; eauto|]. apply Forall_app. split; [|exact F2].
+  eapply Forall_impl; [|exact F1]. intros e. eapply ka_event_t_mono; eauto using reachable_run.
+Qed.
+
+Definition ka_exits (s : state) : Prop :=
+  exists t s', run fixed s t = Some s' /\ ka s' = KExited /\ Forall (ka_event s') t.
+
+Lemma ka_exits_pre s t1 s1 : reachable fixed s -> run fixed s t1 = Some s1 -> Forall (ka_event s1) t1 -> ka_exits s1 -> ka_exits s.
+Proof.
+  intros R H1 F1 (t2 & s2 & H2 & K2 & F2). destruct (ka_chain s t1 s1 t2 s2 R H1 F1 H2 F2) as (H & F).
+  exists (t1 ++ t2), s2. auto.
+Qed.
+
+(* waiting for the tick with Done() closed *)
+Lemma ka_exit_wait s : ka s = KWaitTick -> done s = true -> ka_exits s.
+Proof.
+  intros K D. destruct (ka_exit_enabled s K D) as (s' & S & K').
+  exists [KaSeeDone], s'. cbn [run]. rewrite S. repeat split; auto. repeat constructor.
+Qed.
+
+Lemma returned_pc p : is_returned p = true -> exists r, p = PReturned r.
+Proof. destruct p; try discriminate. eauto. Qed.
+
+(* inside the Close it called after a failed enquire_link *)
+Lemma ka_exit_inclose s c : reachable fixed s -> done s = true -> ka s = KInClose c -> ka_exits s.
+Proof.
+  intros R D K. destruct (ka_call_inv s R) as (_ & I2). destruct (I2 c K) as (Kd & L).
+  destruct (caller_finishes s c R D L) as (t1 & s1 & H1 & Ret & F1).
+  pose proof (own_run_ka c t1 s s1 H1 F1) as K1. rewrite K in K1.
+  destruct (returned_pc _ Ret) as (r & P1).
+  assert (V1 : visible s1 c = false).
+  { unfold visible. destruct (run_attrs _ _ _ _ c H1 L) as (-> & _). now rewrite Kd. }
+  assert (S2 : step fixed s1 KaNext = Some (set_ka s1 KWaitTick)) by (unfold step; now rewrite K1, P1).
+  apply (ka_exits_pre s (t1 ++ [KaNext]) (set_ka s1 KWaitTick) R).
+  - eapply run_snoc; eauto.
+  - apply Forall_app. split; [|repeat constructor].
+    eapply Forall_impl; [|exact F1]. intros e Oe. eapply own_ka_event; [|exact Oe]. exact V1.
+  - apply ka_exit_wait; [reflexivity|]. sproj. eapply done_run; eauto.
+Qed.
+
+(* about to call Close *)
+Lemma ka_exit_needclose s (q : Z) (f : outcome bytes) : reachable fixed s -> done s = true -> ka s = KNeedClose -> ka_exits s.
+Proof.
+  intros R D K. destruct (ka_start s KKaClose q f R) as (c & g & s1 & S1 & K1 & D1); [unfold ka_allows; now rewrite K | auto |].
+  apply (ka_exits_pre s [Start c KKaClose g q f] s1 R).
+  - cbn [run]. now rewrite S1.
+  - constructor; [cbn; tauto | constructor].
+  - apply (ka_exit_inclose s1 c); [eapply reachable_step; eauto | congruence | exact K1].
+Qed.
+
+(* inside its enquire_link *)
+Lemma ka_exit_inping s c (q : Z) (f : outcome bytes) : reachable fixed s -> done s = true -> ka s = KInPing c -> ka_exits s.
+Proof.
+  intros R D K. destruct (ka_call_inv s R) as (I1 & _). destruct (I1 c K) as (Kd & L).
+  destruct (caller_finishes s c R D L) as (t1 & s1 & H1 & Ret & F1).
+  pose proof (own_run_ka c t1 s s1 H1 F1) as K1. rewrite K in K1.
+  destruct (returned_pc _ Ret) as (r & P1).
+  assert (V1 : visible s1 c = false).
+  { unfold visible. destruct (run_attrs _ _ _ _ c H1 L) as (-> & _). now rewrite Kd. }
+  assert (D1 : done s1 = true) by (eapply done_run; eauto).
+  assert (R1 : reachable fixed s1) by (eapply reachable_run; eauto).
+  destruct (step fixed s1 KaNext) as [s2|] eqn:S2; [|unfold step in S2; rewrite K1, P1 in S2; destruct r; discriminate].
+  assert (Fa : Forall (ka_event s2) (t1 ++ [KaNext])).
+  { apply Forall_app. split; [|repeat constructor].
+    eapply Forall_impl; [|exact F1]. intros e Oe. eapply own_ka_event; [|exact Oe].
+    eapply (visible_mono s1 [KaNext]); eauto. cbn [run]. now rewrite S2. }
+  apply (ka_exits_pre s (t1 ++ [KaNext]) s2 R); [eapply run_snoc; eauto | exact Fa |].
+  assert (R2 : reachable fixed s2) by (eapply reachable_step; eauto).
+  assert (D2 : done s2 = true) by (eapply done_stable; eauto).
+  unfold step in S2. rewrite K1, P1 in S2.
+  destruct r; injection S2 as <-.
+  - apply ka_exit_wait; auto.
+  - apply (ka_exit_needclose _ q f); auto.
+  - apply (ka_exit_needclose _ q f); auto.
+Qed.
+
+(* about to send its enquire_link *)
+Lemma ka_exit_ready s (qp : Z) (fp : outcome bytes) (qc : Z) (fc : outcome bytes) : reachable fixed s -> done s = true -> ka s = KReady -> ka_exits s.
+Proof.
+  intros R D K. destruct (ka_start s KPing qp fp R) as (c & g & s1 & S1 & K1 & D1); [unfold ka_allows; now rewrite K | auto |].
+  apply (ka_exits_pre s [Start c KPing g qp fp] s1 R).
+  - cbn [run]. now rewrite S1.
+  - constructor; [cbn; tauto | constructor].
+  - apply (ka_exit_inping s1 c qc fc); [eapply reachable_step; eauto | congruence | exact K1].
+Qed.
+
+(* C15, the keep-alive loop: once Done() is closed the loop reaches its return
+   from EVERY state it can be in — about to send an enquire_link, inside that
+   Submit (wherever the call is), about to call Close after a failure, inside
+   that Close, waiting for the tick —, through its own steps, the calls it
+   issues (whatever sequence numbers [qp], [qc] and frames [fp], [fc] its
+   enquire_link and its unbind get) and the steps of those calls; the only thing
+   needed from outside is that the transport lets a Write of these calls
+   return.  No timer is needed: with Done() closed every select of these calls
+   has a ready case. *)
+Lemma ka_exit_any s (qp : Z) (fp : outcome bytes) (qc : Z) (fc : outcome bytes) : reachable fixed s -> done s = true -> ka s <> KOff ->
+  exists t s', run fixed s t = Some s' /\ ka s' = KExited /\ Forall (ka_event s') t.
+Proof.
+  intros R D NK. fold (ka_exits s). destruct (ka s) eqn:K.
+  - congruence.
+  - now apply (ka_exit_ready s qp fp qc fc).
+  - now apply (ka_exit_inping s c qc fc).
+  - now apply (ka_exit_needclose s qc fc).
+  - now apply (ka_exit_inclose s c).
+  - now apply ka_exit_wait.
+  - exists [], s. repeat split; auto.
+Qed.
+
+(* ------------------------------------------------------------------ after a failed enquire_link, Done() still open *)
+(* a call runs to its return, whatever the state of the connection, once its own
+   context expires: its own steps, the transport letting its Write return, the
+   expiry ([CancelCtx]) and its select taking that case ([WakeCtx]) *)
+Definition timed_event (c : nat) (e : event) : Prop :=
+  match e with
+  | Register d | WireWrite d | SendFail d | WriteReturn d | CancelCtx d | WakeCtx d | Unregister d | CloseFinish d => d = c
+  | _ => False
+  end.
+Definition tmeasure (s : state) (c : nat) : nat :=
+  2 * rank (c_pc (callers s c)) + (if c_ctx (callers s c) then 0 else 1).
+
+Ltac prog_t :=
+  eexists; (split; [reflexivity|]); (split; [reflexivity|]); unfold live; sproj; rewrite ?upd_same; sproj;
+  unfold after_call; repeat match goal with |- context [close_like ?k] => destruct (close_like k) end;
+  repeat match goal with |- context [submit_like ?k] => destruct (submit_like k) end;
+  repeat match goal with |- context [c_ctx ?k] => destruct (c_ctx k) end;
+  cbn; repeat split; auto; try discriminate; try lia.
+
+Lemma caller_progress_t s c :
+  reachable fixed s -> live s c -> is_returned (c_pc (callers s c)) = false ->
+  exists e s', timed_event c e /\ step fixed s e = Some s' /\ live s' c /\ (tmeasure s' c < tmeasure s c)%nat.
+Proof.
+  intros R L NR. unfold live, tmeasure in *. destruct (pc_shapes s R c) as (NW & _).
+  destruct (c_pc (callers s c)) eqn:P; try congruence; try discriminate.
+  - (* PStarted *)
+    destruct (submit_like (c_kind (callers s c))) eqn:K.
+    + exists (Register c). unfold step. rewrite K, P. cbn [v_reg_first fixed]. prog_t.
+    + destruct (can_write s (callers s c)) eqn:CW.
+      * exists (WireWrite c). unfold step, at_send. rewrite P, K, CW. cbn [negb andb v_reg_first fixed]. prog_t.
+      * exists (SendFail c). unfold step, at_send. rewrite P, K, CW. cbn [negb andb v_reg_first fixed]. prog_t.
+  - (* PRegistered *)
+    assert (K : submit_like (c_kind (callers s c)) = true) by (apply (leaving_sub s R); now left).
+    destruct (can_write s (callers s c)) eqn:CW.
+    + exists (WireWrite c). unfold step, at_send. rewrite P, K, CW. cbn [negb andb v_reg_first fixed]. prog_t.
+    + exists (SendFail c). unfold step, at_send. rewrite P, K, CW. cbn [negb andb v_reg_first fixed]. prog_t.
+  - exists (WriteReturn c). unfold step. rewrite P. prog_t.
+  - (* PWaiting: the context expires, the select takes that case *)
+    destruct (c_ctx (callers s c)) eqn:X.
+    + exists (WakeCtx c). unfold step. rewrite P, X. prog_t.
+    + exists (CancelCtx c). unfold step. rewrite P. eexists. split; [reflexivity|]. split; [reflexivity|].
+      unfold live. sproj. rewrite upd_same. sproj. rewrite P. cbn. split; [discriminate | lia].
+  - exists (Unregister c). unfold step. rewrite P. prog_t.
+  - exists (CloseFinish c). unfold step. rewrite P. cbn [v_watch_closes fixed]. destruct r; prog_t.
+Qed.
+
+Lemma caller_finishes_t_n n : forall s c,
+  (tmeasure s c <= n)%nat -> reachable fixed s -> live s c ->
+  exists t s', run fixed s t = Some s' /\ is_returned (c_pc (callers s' c)) = true /\ Forall (timed_event c) t.
+Proof.
+  induction n as [|n IH]; intros s c Hr R L; destruct (is_returned (c_pc (callers s c))) eqn:Ret.
+  1,3: exists [], s; repeat split; auto.
+  all: destruct (caller_progress_t s c R L Ret) as (e & s1 & Oe & S1 & L1 & Lt).
+  - exfalso. lia.
+  - destruct (IH s1 c) as (t & s' & Ht & Hret & Hf); [lia | eauto using reachable_step | exact L1 |].
+    exists (e :: t), s'. cbn [run]. rewrite S1. repeat split; auto.
+Qed.
+
+Lemma timed_step_ka s e s' c : step fixed s e = Some s' -> timed_event c e -> ka s' = ka s.
+Proof. intros H Oe. destruct e; cbn in Oe; try contradiction; step_inv H; sproj; reflexivity. Qed.
+
+Lemma timed_run_ka c t : forall s s', run fixed s t = Some s' -> Forall (timed_event c) t -> ka s' = ka s.
+Proof.
+  induction t as [|e t IH]; intros s s' H F; cbn [run] in H; [now injection H as <-|].
+  destruct (step fixed s e) as [s1|] eqn:E; [|discriminate]. inversion F; subst.
+  rewrite (IH _ _ H); [eapply timed_step_ka; eauto | assumption].
+Qed.
+
+Lemma timed_ka_event s c e : visible s c = false -> timed_event c e -> ka_event_t s e.
+Proof.
+  intros V Oe. destruct e; cbn in Oe; try contradiction; subst; try (left; exact V); right; exact V.
+Qed.
+
+Definition ka_exits_t (s : state) : Prop :=
+  exists t s', run fixed s t = Some s' /\ ka s' = KExited /\ done s' = true /\ Forall (ka_event_t s') t.
+
+Lemma ka_exit_inclose_t s c : reachable fixed s -> ka s = KInClose c -> ka_exits_t s.
+Proof.
+  intros R K. destruct (ka_call_inv s R) as (_ & I2). destruct (I2 c K) as (Kd & L).
+  destruct (caller_finishes_t_n _ s c (le_n _) R L) as (t1 & s1 & H1 & Ret & F1).
+  pose proof (timed_run_ka c t1 s s1 H1 F1) as K1. rewrite K in K1.
+  destruct (returned_pc _ Ret) as (r & P1).
+  assert (R1 : reachable fixed s1) by (eapply reachable_run; eauto).
+  destruct (run_attrs _ _ _ _ c H1 L) as (Kd1 & _). rewrite Kd in Kd1.
+  assert (D1 : done s1 = true).
+  { apply (proj1 (close_returned_done s1 R1) c r); [now rewrite Kd1 | exact P1]. }
+  exists (t1 ++ [KaNext; KaSeeDone]), (set_ka (set_ka s1 KWaitTick) KExited).
+  split.
+  { eapply run_cat; [exact H1|]. cbn [run]. unfold step at 1. rewrite K1, P1.
+    unfold step. sproj. now rewrite D1. }
+  sproj. split; [reflexivity|]. split; [exact D1|].
+  apply Forall_app. split; [|repeat constructor; left; exact I].
+  eapply Forall_impl; [|exact F1]. intros e Oe. eapply timed_ka_event; [|exact Oe].
+  unfold visible. sproj. now rewrite Kd1.
+Qed.
+
+(* C15, the keep-alive loop after a failed enquire_link (it has stopped its
+   ticker): whether or not Done() is closed already, from the point where it is
+   about to call Close, or inside that Close wherever the call is, the loop
+   reaches its return and Done() is closed: its own steps, the issue of Close
+   (unbind with any sequence number and frame), the steps of that call, and from
+   outside: the transport letting the call's Write return and the one-second
+   context of Close expiring ([CancelCtx] of that call; its select then takes
+   that case, [WakeCtx]).  No answer of the peer is needed. *)
+Lemma ka_exit_failed s (qc : Z) (fc : outcome bytes) : reachable fixed s ->
+  (ka s = KNeedClose \/ exists c, ka s = KInClose c) ->
+  exists t s', run fixed s t = Some s' /\ ka s' = KExited /\ done s' = true /\ Forall (ka_event_t s') t.
+Proof.
+  intros R [K|(c & K)]; [|now apply (ka_exit_inclose_t s c)].
+  destruct (ka_start s KKaClose qc fc R) as (c & g & s1 & S1 & K1 & D1); [unfold ka_allows; now rewrite K | auto |].
+  assert (R1 : reachable fixed s1) by (eapply reachable_step; eauto).
+  destruct (ka_exit_inclose_t s1 c R1 K1) as (t2 & s2 & H2 & K2 & D2 & F2).
+  destruct (ka_chain_t s [Start c KKaClose g qc fc] s1 t2 s2 R) as (H & F); auto.
+  - cbn [run]. now rewrite S1.
+  - constructor; [left; cbn; tauto | constructor].
+  - exists ([Start c KKaClose g qc fc] ++ t2), s2. auto.
+Qed.
+
+(* non-vacuity: Done() closed by the parent while the loop is inside its
+   enquire_link, which is inside the transport Write *)
+Definition ka_trace : list event :=
+  [WatchLoop; KaStart; Start 0 KPing 9 5%Z (Ok [5]); Register 0; WireWrite 0; CancelParent].
+Lemma ka_example :
+  exists s, reachable fixed s /\ done s = true /\ ka s = KInPing 0 /\ c_pc (callers s 0%nat) = PWriting /\
+            ticker_stopped s = false.
+Proof.
+  destruct (run fixed init ka_trace) as [s|] eqn:E; [|vm_compute in E; discriminate].
+  exists s. split; [exists ka_trace; exact E|]. vm_compute in E. injection E as <-. repeat split; reflexivity.
+Qed.
+(* the enquire_link timed out, the loop stopped its ticker and is about to call Close; Done() is open *)
+Definition ka_failed_trace : list event :=
+  [WatchLoop; KaStart; Start 0 KPing 9 5%Z (Ok [5]); Register 0; WireWrite 0; WriteReturn 0;
+   CancelCtx 0; WakeCtx 0; Unregister 0; KaNext].
+Lemma ka_failed_example :
+  exists s, reachable fixed s /\ done s = false /\ ka s = KNeedClose /\ ticker_stopped s = true /\
+            c_pc (callers s 0%nat) = PReturned RErr.
+Proof.
+  destruct (run fixed init ka_failed_trace) as [s|] eqn:E; [|vm_compute in E; discriminate].
+  exists s. split; [exists ka_failed_trace; exact E|]. vm_compute in E. injection E as <-. repeat split; reflexivity.
+Qed.
+
+(* ================================================================== C15: Watch and the consumer of PDU() *)
+(* [C15_watch_exit] lets the application receive ([AppRecv] is one of its
+   [watch_event]s).  That hypothesis is needed: the send on the unbuffered
+   queue is left only by a receive or — Done() closed — by giving it up. *)
+Lemma sending_step s e s' p : wpc s = WSending p -> step fixed s e = Some s' ->
+  wpc s' = WSending p \/ e = AppRecv \/ (e = WatchSeeDone /\ done s = true).
+Proof.
+  intros W H. destruct e; step_inv H; sproj; auto; try congruence.
+  right; right. bools. auto.
+Qed.
+
+Definition no_teardown (e : event) : Prop :=
+  match e with CancelParent | CloseFinish _ => False | _ => True end.
+
+Lemma sending_stuck_step s e s' p :
+  wpc s = WSending p -> done s = false -> step fixed s e = Some s' -> e <> AppRecv -> no_teardown e ->
+  wpc s' = WSending p /\ done s' = false.
+Proof.
+  intros W D H NA NT. destruct e; cbn in NT; try contradiction; step_inv H; sproj; auto; try congruence.
+  bools. congruence.
+Qed.
+
+(* With nobody receiving from PDU(), Watch blocked in its send stays there and
+   Done() stays open whatever else happens — EOF, errors and timeouts of the
+   transport included — until the parent is cancelled or a Close finishes. *)
+Lemma watch_needs_consumer t : forall s s' p,
+  wpc s = WSending p -> done s = false -> run fixed s t = Some s' ->
+  Forall (fun e => e <> AppRecv /\ no_teardown e) t -> wpc s' = WSending p /\ done s' = false.
+Proof.
+  induction t as [|e t IH]; intros s s' p W D H F; cbn [run] in H; [injection H as <-; auto|].
+  destruct (step fixed s e) as [s1|] eqn:E; [|discriminate]. inversion F as [|? ? (NA & NT) F']; subst.
+  destruct (sending_stuck_step _ _ _ _ W D E NA NT) as (W1 & D1). eapply IH; eauto.
+Qed.
+
+(* once Done() is closed it gives the send up, closes the queue and returns *)
+Lemma sending_gives_up s p : wpc s = WSending p -> done s = true ->
+  exists s', step fixed s WatchSeeDone = Some s' /\ wpc s' = WExited /\ queue_closed s' = true /\ done s' = true.
+Proof. intros W D. unfold step. rewrite W, D. eexists. split; [reflexivity|]. sproj. auto. Qed.
+
+(* Without a consumer, after the transport reported its end, Watch by its own
+   steps either returns (Done() closed) or ends up blocked in the send of an
+   unsolicited PDU that was still readable. *)
+Definition watch_own (e : event) : Prop := e = WatchLoop \/ e = WatchStep.
+
+Lemma watch_alone_n n : forall s,
+  (wmeasure s <= n)%nat -> reachable fixed s -> ended s ->
+  exists t s', run fixed s t = Some s' /\ Forall watch_own t /\
+               ((wpc s' = WExited /\ done s' = true) \/ exists p, wpc s' = WSending p).
+Proof.
+  assert (Dec : forall s, (wpc s = WExited \/ exists p, wpc s = WSending p) \/ (wpc s <> WExited /\ forall p, wpc s <> WSending p)).
+  { intros s; destruct (wpc s); eauto; right; split; intros; discriminate. }
+  induction n as [|n IH]; intros s Hm R E; destruct (Dec s) as [[W|W]|(W & NS)].
+  1,4: exists [], s; (split; [reflexivity|]); (split; [constructor|]); left; (split; [exact W | apply (proj1 (exited_inv s R W))]).
+  1,3: exists [], s; (split; [reflexivity|]); (split; [constructor|]); right; exact W.
+  all: destruct (watch_progress s R E W) as (e & s1 & We & S1 & E1 & Pr).
+  all: assert (Oe : watch_own e) by
+        (destruct e; cbn in We; try contradiction; unfold watch_own; auto;
+         exfalso; unfold step in S1; destruct (wpc s) eqn:X; try discriminate S1; eapply NS; reflexivity).
+  all: destruct Pr as [(X & D)|Lt].
+  1,3: exists [e], s1; cbn [run]; rewrite S1; (split; [reflexivity|]); (split; [constructor; [exact Oe | constructor]|]); left; auto.
+  - exfalso. lia.
+  - destruct (IH s1) as (t & s' & Ht & Hf & Hw); [lia | eauto using reachable_step | exact E1 |].
+    exists (e :: t), s'. cbn [run]. rewrite S1. repeat split; auto.
+Qed.
+
+Lemma watch_alone s : reachable fixed s -> ended s ->
+  exists t s', run fixed s t = Some s' /\ Forall watch_own t /\
+               ((wpc s' = WExited /\ done s' = true) \/ exists p, wpc s' = WSending p).
+Proof. intros R E. exact (watch_alone_n _ s (le_n _) R E). Qed.
+
+(* non-vacuity: the state of [c15_example]: EOF reported, an unsolicited PDU in Watch's hand, Done() open *)
+Lemma sending_example :
+  exists s, reachable fixed s /\ ended s /\ wpc s = WSending (5, 100%Z) /\ done s = false.
+Proof. destruct c15_example as (s & R & E & W & D & _). exists s. auto. Qed.
